@@ -164,6 +164,24 @@ def compress(data, comp):
     raise ValueError(comp)
 
 
+def lenient_decompresses(data, comp):
+    """True if the stdlib file reader for the format yields text for these bytes although they are not exactly one
+    complete stream (it ignores what follows the first stream)."""
+    import io
+    try:
+        if comp == 'bz2':
+            bz2.BZ2File(io.BytesIO(data)).read()
+        elif comp == 'lzma':
+            lzma.LZMAFile(io.BytesIO(data), format=lzma.FORMAT_ALONE).read()
+        elif comp == 'xz':
+            lzma.LZMAFile(io.BytesIO(data), format=lzma.FORMAT_XZ).read()
+        else:
+            return False
+        return True
+    except Exception:
+        return False
+
+
 def decompress(data, comp):
     if comp is None:
         return data
